@@ -319,7 +319,11 @@ def fault_case(ctx, rng, worker):
                     continue
             ctx.monitor("fault-located")
             if lib.ok(rec) or not rec.get("msgs"):
-                ctx.violation("fault-location", {"kind": "fault-not-reported", "fault": kind}, job, "an error", {"ok": lib.ok(rec)})
+                bare0 = re.sub(r";\*.*?\*;", "", fault_text).split(";")[0].strip()
+                ctx.violation("fault-location", {"kind": "fault-not-reported", "fault": kind,
+                                                 "missing_operand_at_end_of_line": bare0 in MISSING_OPERAND,
+                                                 "next_line_can_start_an_expression": next_can_start_expression(text_body, line_no_in_body)},
+                              job, "an error", {"ok": lib.ok(rec), "fault_line_text": fault_text[:60]})
                 continue
             first = flatten(rec["msgs"][:1])
             hit = False
